@@ -320,15 +320,20 @@ class SmallSet {
     insert_return_type irt{end(), false, std::move(nh)};
     if (irt.node) {
       std::tie(irt.position, irt.inserted) = insert(std::move(*irt.node._optV));
-      irt.node._optV = std::nullopt;
+      if (irt.inserted) {
+        irt.node._optV = std::nullopt;  // otherwise the node keeps owning its (untouched) value, like std::set
+      }
     }
     return irt;
   }
 
   iterator insert(const_iterator hint, node_type &&nh) {
     if (nh) {
+      size_type oldSize = size();
       auto retIt = insert(hint, std::move(*nh._optV));
-      nh._optV = std::nullopt;
+      if (size() != oldSize) {
+        nh._optV = std::nullopt;  // otherwise the node keeps owning its (untouched) value, like std::set
+      }
       return retIt;
     }
     return end();
